@@ -6,6 +6,7 @@ CONSTANTS
   DeepLock = TRUE
   BadSig = 0
   UnlockOnFail = TRUE
+  HotReload = FALSE
   MixinsUpdate = TRUE
   GenDepth = 12
 CONSTRAINT Emit
